@@ -279,8 +279,10 @@ def fnloc(ctx, fname):
 
 
 def rel(path):
-    if path and path.startswith('/repo/'):
-        return path[6:]
+    from . import build
+    root = build.REPO.rstrip('/') + '/'
+    if path and path.startswith(root):
+        return path[len(root):]
     return path or '?'
 
 
